@@ -1,3 +1,18 @@
 -- GENERATED: axiom audit of the property theorems of C42
 import SquidModel.Properties.C42
+#print axioms SquidModel.C42.match_iff_union_partial
+#print axioms SquidModel.C42.match_iff_union_plain
+#print axioms SquidModel.C42.match_iff_union_ipv4_lists
+#print axioms SquidModel.C42.match_order_irrelevant
+#print axioms SquidModel.C42.factoryParse_stores_aligned
+#print axioms SquidModel.C42.keyword_all
+#print axioms SquidModel.C42.keyword_ipv4
+#print axioms SquidModel.C42.keyword_ipv6
+#print axioms SquidModel.C42.lookups_keep_stored
 #print axioms SquidModel.C42.anyaddr_order_counterexample
+#print axioms SquidModel.C42.range_matches_anyaddr_counterexample
+#print axioms SquidModel.C42.range_matches_noaddr_counterexample
+#print axioms SquidModel.C42.masked_probe_counterexample
+#print axioms SquidModel.C42.v6_slash_zero_counterexample
+#print axioms SquidModel.C42.range_end_anyaddr_counterexample
+#print axioms SquidModel.C42.reversed_range_dangling_counterexample
